@@ -12,38 +12,43 @@ def FR (p : Payload) : Prop := (attrGet p.attrs RENAME_NAME).isSome = true
 /-- longest text the line mode of the engine model is proved for: two such texts and three more lines stay below the
 surrogate range -/
 def TEXT_MAX : Nat := 27000
-/-- a text the engine can be asked about: no private-use characters, not too long -/
-def Plain (t : Option Str) : Prop := Low (strOf t) ∧ (strOf t).length ≤ TEXT_MAX
+/-- a text the engine can be asked about: no private-use characters, not too long, and - when the formatter normalises
+texts (`w`: `normalize & WS_TEXT`) - already in whitespace-normal form, so that the normalisation in `_make_diff_tags`
+leaves it alone -/
+def Plain (w : Bool) (t : Option Str) : Prop :=
+  Low (strOf t) ∧ (strOf t).length ≤ TEXT_MAX ∧ (w = true → wsNorm (strOf t) = strOf t)
 /-- the text is not (known to be) an unmarked text -/
-def FT (p : Payload) : Prop := ¬ Plain p.text
+def FT (w : Bool) (p : Payload) : Prop := ¬ Plain w p.text
 /-- the same for the tail -/
-def FA (p : Payload) : Prop := ¬ Plain p.tail
+def FA (w : Bool) (p : Payload) : Prop := ¬ Plain w p.tail
 
-structure JAll (σ : Nat → Nat) (MT T : Tree) (HR HT HA : List Nat) : Prop where
+structure JAll (w : Bool) (σ : Nat → Nat) (MT T : Tree) (HR HT HA : List Nat) : Prop where
   jr : JF FR σ MT T HR
-  jt : JF FT σ MT T HT
-  ja : JF FA σ MT T HA
+  jt : JF (FT w) σ MT T HT
+  ja : JF (FA w) σ MT T HA
+
+variable (w : Bool)
 
 /-- a payload change at the node standing for `l0`: each mark is either untouched by the change or `l0` is recorded -/
 theorem jall_modify (σ σ' : Nat → Nat) (MT T T' : Tree) (HR HT HA HR' HT' HA' : List Nat) (i0 l0 : Nat)
     (f : Payload → Payload) (hn : (ids MT).Nodup) (hsub : ∀ l ∈ ids T', l ∈ ids T)
     (hag : ∀ l ∈ ids T, σ' l = σ l) (hinj : InjOn σ (ids T)) (hl0 : l0 ∈ ids T) (hi0 : i0 = σ l0)
-    (hR : (∀ p, FR (f p) → FR p) ∨ l0 ∈ HR') (hT : (∀ p, FT (f p) → FT p) ∨ l0 ∈ HT')
-    (hA : (∀ p, FA (f p) → FA p) ∨ l0 ∈ HA')
+    (hR : (∀ p, FR (f p) → FR p) ∨ l0 ∈ HR') (hT : (∀ p, FT w (f p) → FT w p) ∨ l0 ∈ HT')
+    (hA : (∀ p, FA w (f p) → FA w p) ∨ l0 ∈ HA')
     (sR : ∀ x ∈ HR, x ∈ HR') (sT : ∀ x ∈ HT, x ∈ HT') (sA : ∀ x ∈ HA, x ∈ HA')
-    (J : JAll σ MT T HR HT HA) : JAll σ' (modify i0 f MT) T' HR' HT' HA' := by
+    (J : JAll w σ MT T HR HT HA) : JAll w σ' (modify i0 f MT) T' HR' HT' HA' := by
   refine ⟨?_, ?_, ?_⟩
   · apply jf_modify FR σ σ' MT T T' HR HR' i0 l0 f hn hsub hag hinj hl0 hi0 _ sR J.jr
     intro p hp
     rcases hR with h | h
     · exact Or.inl (h p hp)
     · exact Or.inr h
-  · apply jf_modify FT σ σ' MT T T' HT HT' i0 l0 f hn hsub hag hinj hl0 hi0 _ sT J.jt
+  · apply jf_modify (FT w) σ σ' MT T T' HT HT' i0 l0 f hn hsub hag hinj hl0 hi0 _ sT J.jt
     intro p hp
     rcases hT with h | h
     · exact Or.inl (h p hp)
     · exact Or.inr h
-  · apply jf_modify FA σ σ' MT T T' HA HA' i0 l0 f hn hsub hag hinj hl0 hi0 _ sA J.ja
+  · apply jf_modify (FA w) σ σ' MT T T' HA HA' i0 l0 f hn hsub hag hinj hl0 hi0 _ sA J.ja
     intro p hp
     rcases hA with h | h
     · exact Or.inl (h p hp)
@@ -60,40 +65,40 @@ theorem FR_insAttr (p : Payload) : FR { p with attrs := attrSet p.attrs INSERT_N
 
 /-! ### what the handlers' payload changes do to the marks -/
 
-theorem marks_markDel : (∀ p, FR (markDel p) → FR p) ∧ (∀ p, FT (markDel p) → FT p) ∧ (∀ p, FA (markDel p) → FA p) := by
+theorem marks_markDel : (∀ p, FR (markDel p) → FR p) ∧ (∀ p, FT w (markDel p) → FT w p) ∧ (∀ p, FA w (markDel p) → FA w p) := by
   refine ⟨fun p => FR_of_get p _ ?_, fun _ h => h, fun _ h => h⟩
   have : RENAME_NAME ≠ DELETE_NAME := by decide
   simp [markDel, attrGet_attrSet, this]
 
-theorem marks_fRen (tag : Str) : (∀ p, FT (fRen tag p) → FT p) ∧ (∀ p, FA (fRen tag p) → FA p) :=
+theorem marks_fRen (tag : Str) : (∀ p, FT w (fRen tag p) → FT w p) ∧ (∀ p, FA w (fRen tag p) → FA w p) :=
   ⟨fun _ h => h, fun _ h => h⟩
 
 theorem marks_fUpd (name value oldv : Str) (hpn : isDiffKey name = false) :
-    (∀ p, FR (fUpd name value oldv p) → FR p) ∧ (∀ p, FT (fUpd name value oldv p) → FT p) ∧
-      (∀ p, FA (fUpd name value oldv p) → FA p) := by
+    (∀ p, FR (fUpd name value oldv p) → FR p) ∧ (∀ p, FT w (fUpd name value oldv p) → FT w p) ∧
+      (∀ p, FA w (fUpd name value oldv p) → FA w p) := by
   refine ⟨fun p => FR_of_get p _ ?_, fun _ h => h, fun _ h => h⟩
   simp only [fUpd]
   rw [Rej.get_extend _ _ _ _ (by decide)]
   simp [attrGet_attrSet, Rej.ne_of_plain name RENAME_NAME hpn isDiffKey_rename]
 
 theorem marks_fDel (name : Str) (hpn : isDiffKey name = false) :
-    (∀ p, FR (fDel name p) → FR p) ∧ (∀ p, FT (fDel name p) → FT p) ∧ (∀ p, FA (fDel name p) → FA p) := by
+    (∀ p, FR (fDel name p) → FR p) ∧ (∀ p, FT w (fDel name p) → FT w p) ∧ (∀ p, FA w (fDel name p) → FA w p) := by
   refine ⟨fun p => FR_of_get p _ ?_, fun _ h => h, fun _ h => h⟩
   simp only [fDel]
   rw [Rej.get_extend _ _ _ _ (by decide)]
   simp [attrGet_attrDel, Rej.ne_of_plain name RENAME_NAME hpn isDiffKey_rename]
 
 theorem marks_fAdd (name value : Str) (hpn : isDiffKey name = false) :
-    (∀ p, FR (fAdd name value p) → FR p) ∧ (∀ p, FT (fAdd name value p) → FT p) ∧
-      (∀ p, FA (fAdd name value p) → FA p) := by
+    (∀ p, FR (fAdd name value p) → FR p) ∧ (∀ p, FT w (fAdd name value p) → FT w p) ∧
+      (∀ p, FA w (fAdd name value p) → FA w p) := by
   refine ⟨fun p => FR_of_get p _ ?_, fun _ h => h, fun _ h => h⟩
   simp only [fAdd]
   rw [Rej.get_extend _ _ _ _ (by decide)]
   simp [attrGet_attrSet, Rej.ne_of_plain name RENAME_NAME hpn isDiffKey_rename]
 
 theorem marks_fRenA (old new v : Str) (ho : isDiffKey old = false) (hnw : isDiffKey new = false) :
-    (∀ p, FR (fRenA old new v p) → FR p) ∧ (∀ p, FT (fRenA old new v p) → FT p) ∧
-      (∀ p, FA (fRenA old new v p) → FA p) := by
+    (∀ p, FR (fRenA old new v p) → FR p) ∧ (∀ p, FT w (fRenA old new v p) → FT w p) ∧
+      (∀ p, FA w (fRenA old new v p) → FA w p) := by
   refine ⟨fun p => FR_of_get p _ ?_, fun _ h => h, fun _ h => h⟩
   simp only [fRenA]
   rw [Rej.get_extend _ _ _ _ (by decide)]
@@ -115,11 +120,11 @@ theorem targets_single (sel : Once.Sel) (qn : QName) (p p1 : PState) (a : Action
 theorem mem_append_left' {α : Type} (a b : List α) : ∀ x ∈ a, x ∈ a ++ b := fun _ h => List.mem_append_left _ h
 
 theorem step_J (qn : QName) (s : FState) (h : FOK s) (T : Tree) (nx : Nat) (σ : Nat → Nat)
-    (r : Rel σ T (acc (cln accS) s.tree) nx s.next) (HR HT HA : List Nat) (J : JAll σ s.tree T HR HT HA)
+    (r : Rel σ T (acc (cln accS) s.tree) nx s.next) (HR HT HA : List Nat) (J : JAll w σ s.tree T HR HT HA)
     (a : Action) (hsim : Simulated a) (hsu : SUAct qn T a) (hpn : PlainNames a) (htx : TextsOK a)
     (hor : OracleStep qn s a) (p1 : PState) (hp : applyUniq qn ⟨T, nx⟩ a = .ok p1) :
     ∃ s' σ', applyFmt qn s a = .ok s' ∧ Rel σ' p1.tree (acc (cln accS) s'.tree) p1.next s'.next ∧ FOK s' ∧
-      JAll σ' s'.tree p1.tree (HR ++ Once.targets Once.renSel qn ⟨T, nx⟩ [a])
+      JAll w σ' s'.tree p1.tree (HR ++ Once.targets Once.renSel qn ⟨T, nx⟩ [a])
         (HT ++ Once.targets Once.textSel qn ⟨T, nx⟩ [a]) (HA ++ Once.targets Once.tailSel qn ⟨T, nx⟩ [a]) := by
   obtain ⟨σ', q1, hq, r', hag, hnx⟩ := applyUniq_equiv_agree qn a σ T _ nx s.next r p1 hp
   have hsu' : SUAct qn (acc (cln accS) s.tree) a := by rw [r.eq]; exact suAct_mapId qn σ T a hsu
@@ -148,14 +153,14 @@ theorem step_J (qn : QName) (s : FState) (h : FOK s) (T : Tree) (nx : Nat) (σ :
   have hmod : ∀ (path : Path) (nd m : Tree) (x : Tree) (f : Payload → Payload) (sg : List (List Seg))
       (HR' HT' HA' : List Nat), SU qn path [T] x → uniqueHit qn T path = .ok nd → xresolve qn s.tree path = .ok m →
       (∀ l ∈ ids p1.tree, l ∈ ids T) → s'.tree = (modifyNode { s with segs := sg } m.id f).tree →
-      ((∀ p, FR (f p) → FR p) ∨ nd.id ∈ HR') → ((∀ p, FT (f p) → FT p) ∨ nd.id ∈ HT') →
-      ((∀ p, FA (f p) → FA p) ∨ nd.id ∈ HA') →
+      ((∀ p, FR (f p) → FR p) ∨ nd.id ∈ HR') → ((∀ p, FT w (f p) → FT w p) ∨ nd.id ∈ HT') →
+      ((∀ p, FA w (f p) → FA w p) ∨ nd.id ∈ HA') →
       (∀ x ∈ HR, x ∈ HR') → (∀ x ∈ HT, x ∈ HT') → (∀ x ∈ HA, x ∈ HA') →
-      JAll σ' s'.tree p1.tree HR' HT' HA' := by
+      JAll w σ' s'.tree p1.tree HR' HT' HA' := by
     intro path nd m x f sg HR' HT' HA' hx hh hm hsub hs' hR hT hA sR sT sA
     obtain ⟨hid, hin⟩ := hnode path nd m x hx hh hm
     rw [hs']
-    exact jall_modify σ σ' s.tree T p1.tree HR HT HA HR' HT' HA' m.id nd.id f h.tok.nodup hsub hag r.inj hin hid
+    exact jall_modify w σ σ' s.tree T p1.tree HR HT HA HR' HT' HA' m.id nd.id f h.tok.nodup hsub hag r.inj hin hid
       hR hT hA sR sT sA J
   cases a <;> simp only [Simulated] at hsim
   case deleteNode n =>
@@ -179,7 +184,7 @@ theorem step_J (qn : QName) (s : FState) (h : FOK s) (T : Tree) (nx : Nat) (σ :
           simp only [Once.renSel, Once.textSel, Once.tailSel, List.append_nil]
           exact hmod n nd m x markDel s.segs HR HT HA hx hh hm
             (fun l hl => (ids_remove_sublist nd.id T).subset hl) rfl
-            (Or.inl marks_markDel.1) (Or.inl marks_markDel.2.1) (Or.inl marks_markDel.2.2)
+            (Or.inl (marks_markDel w).1) (Or.inl (marks_markDel w).2.1) (Or.inl (marks_markDel w).2.2)
             (fun _ h => h) (fun _ h => h) (fun _ h => h)
   case insertNode tgt tag pos =>
     obtain ⟨x, hx⟩ := hsu
@@ -218,10 +223,10 @@ theorem step_J (qn : QName) (s : FState) (h : FOK s) (T : Tree) (nx : Nat) (σ :
         refine ⟨?_, ?_, ?_⟩
         · exact jf_insert FR σ σ' s.tree T _ HR m.id _ s.next nx _ h.tok.nodup hmin hk hT' hag hnx' hlt
             (by simp [FR, attrGet, INSERT_NAME, RENAME_NAME, dname]) J.jr
-        · exact jf_insert FT σ σ' s.tree T _ HT m.id _ s.next nx _ h.tok.nodup hmin hk hT' hag hnx' hlt
-            (by intro hc; exact hc ⟨fun c hc' => (by cases hc'), Nat.zero_le _⟩) J.jt
-        · exact jf_insert FA σ σ' s.tree T _ HA m.id _ s.next nx _ h.tok.nodup hmin hk hT' hag hnx' hlt
-            (by intro hc; exact hc ⟨fun c hc' => (by cases hc'), Nat.zero_le _⟩) J.ja
+        · exact jf_insert (FT w) σ σ' s.tree T _ HT m.id _ s.next nx _ h.tok.nodup hmin hk hT' hag hnx' hlt
+            (by intro hc; exact hc ⟨fun c hc' => (by cases hc'), Nat.zero_le _, fun _ => rfl⟩) J.jt
+        · exact jf_insert (FA w) σ σ' s.tree T _ HA m.id _ s.next nx _ h.tok.nodup hmin hk hT' hag hnx' hlt
+            (by intro hc; exact hc ⟨fun c hc' => (by cases hc'), Nat.zero_le _, fun _ => rfl⟩) J.ja
   case renameNode n tag =>
     obtain ⟨x, hx⟩ := hsu
     simp only [applyUniq, applyWith, bind, Except.bind] at hp
@@ -239,7 +244,7 @@ theorem step_J (qn : QName) (s : FState) (h : FOK s) (T : Tree) (nx : Nat) (σ :
         subst e1
         simp only [Once.renSel, Once.textSel, Once.tailSel, hh, List.append_nil]
         exact hmod n nd m x (fRen tag) s.segs _ HT HA hx hh hm (fun l hl => by rwa [ids_modify] at hl) rfl
-          (Or.inr (by simp)) (Or.inl (marks_fRen tag).1) (Or.inl (marks_fRen tag).2)
+          (Or.inr (by simp)) (Or.inl (marks_fRen w tag).1) (Or.inl (marks_fRen w tag).2)
           (mem_append_left' _ _) (fun _ h => h) (fun _ h => h)
   case updateTextIn n t =>
     obtain ⟨x, hx⟩ := hsu
@@ -321,7 +326,7 @@ theorem step_J (qn : QName) (s : FState) (h : FOK s) (T : Tree) (nx : Nat) (σ :
             simp only [Except.ok.injEq] at e1
             subst e1
             simp only [Once.renSel, Once.textSel, Once.tailSel, List.append_nil]
-            have mk := marks_fUpd name value oldv hpn
+            have mk := marks_fUpd w name value oldv hpn
             exact hmod n nd m x (fUpd name value oldv) s.segs HR HT HA hx hh hm
               (fun l hl => by rwa [ids_modify] at hl) rfl (Or.inl mk.1) (Or.inl mk.2.1) (Or.inl mk.2.2)
               (fun _ h => h) (fun _ h => h) (fun _ h => h)
@@ -347,7 +352,7 @@ theorem step_J (qn : QName) (s : FState) (h : FOK s) (T : Tree) (nx : Nat) (σ :
           · simp only [Except.ok.injEq] at e1
             subst e1
             simp only [Once.renSel, Once.textSel, Once.tailSel, List.append_nil]
-            have mk := marks_fDel name hpn
+            have mk := marks_fDel w name hpn
             exact hmod n nd m x (fDel name) s.segs HR HT HA hx hh hm
               (fun l hl => by rwa [ids_modify] at hl) rfl (Or.inl mk.1) (Or.inl mk.2.1) (Or.inl mk.2.2)
               (fun _ h => h) (fun _ h => h) (fun _ h => h)
@@ -371,7 +376,7 @@ theorem step_J (qn : QName) (s : FState) (h : FOK s) (T : Tree) (nx : Nat) (σ :
           simp only [Except.ok.injEq] at e1
           subst e1
           simp only [Once.renSel, Once.textSel, Once.tailSel, List.append_nil]
-          have mk := marks_fAdd name value hpn
+          have mk := marks_fAdd w name value hpn
           exact hmod n nd m x (fAdd name value) s.segs HR HT HA hx hh hm
             (fun l hl => by rwa [ids_modify] at hl) rfl (Or.inl mk.1) (Or.inl mk.2.1) (Or.inl mk.2.2)
             (fun _ h => h) (fun _ h => h) (fun _ h => h)
@@ -400,7 +405,7 @@ theorem step_J (qn : QName) (s : FState) (h : FOK s) (T : Tree) (nx : Nat) (σ :
               simp only [Except.ok.injEq] at e1
               subst e1
               simp only [Once.renSel, Once.textSel, Once.tailSel, List.append_nil]
-              have mk := marks_fRenA old new v hpn.1 hpn.2
+              have mk := marks_fRenA w old new v hpn.1 hpn.2
               exact hmod n nd m x (fRenA old new v) s.segs HR HT HA hx hh hm
                 (fun l hl => by rwa [ids_modify] at hl) rfl (Or.inl mk.1) (Or.inl mk.2.1) (Or.inl mk.2.2)
                 (fun _ h => h) (fun _ h => h) (fun _ h => h)
